@@ -504,6 +504,40 @@ def o_count(ev, st, t, site):
     return False
 
 
+def o_unwrap(ev, st, t, site):
+    a = _deref(st, _arg(ev, st, t, 0))
+    if a is None or a[0] != "variant" or a[1] not in ("Some", "Ok"):
+        return False
+    return _set_dest(st, t, dict(a[2]).get(0))
+
+
+def o_opt_take(ev, st, t, site):
+    raw = _arg(ev, st, t, 0)
+    v = _deref(st, raw)
+    if raw is None or v is None or v[0] != "variant" or v[1] not in ("Some", "None"):
+        return False
+    if raw[0] == "refmut":
+        st[raw[1]] = NONE
+    elif raw[0] == "pref":
+        ev._store(st, {"l": raw[1], "p": [{"f": f} for f in raw[2]]}, NONE)
+    return _set_dest(st, t, v)
+
+
+def o_vec_new(ev, st, t, site):
+    n = st.get(-1000)
+    nid = (int(n[1]) if n else 100) + 1
+    st[-1000] = ("const", str(nid))
+    st[-nid] = ("list", ())
+    return _set_dest(st, t, ("seq", nid))
+
+
+OPTION_ORACLES = [
+    (r"Option.*::(unwrap|expect)$|Result.*::(unwrap|expect)$", o_unwrap),
+    (r"Option.*::take$", o_opt_take),
+    (r"(vec::Vec|VecDeque).*::(new|with_capacity)$", o_vec_new),
+]
+
+
 def o_len(ev, st, t, site):
     lid, lst = _list_of(st, _arg(ev, st, t, 0))
     if lid is None:
